@@ -10,6 +10,7 @@ package main
 // Blocking is not modelled: a receive on an exhausted channel yields (zero, false); `select` picks any case.
 
 import (
+	"strings"
 	"fmt"
 	"go/token"
 	"go/types"
@@ -123,7 +124,34 @@ func (c *FnCtx) execSelect(fr *Frame, st *State, i *ssa.Select) {
 	fr.vals[i] = Val{T: i.Type(), Tuple: tup}
 }
 
-func (e *Engine) onChanRecv(c *FnCtx, fr *Frame, st *State, ch, v Val, ok string, pos token.Pos) {}
+// onChanRecv: `onrecv T: expr` clauses are assumed of every value received from a channel whose element type is T.
+func (e *Engine) onChanRecv(c *FnCtx, fr *Frame, st *State, ch, v Val, ok string, pos token.Pos) {
+	spec := c.specFor(fr)
+	if spec == nil || len(spec.OnRecv) == 0 || c.sc.pure {
+		return
+	}
+	for _, rc := range spec.OnRecv {
+		bare := func(n string) string {
+			star := strings.HasPrefix(n, "*")
+			n = strings.TrimPrefix(n, "*")
+			if k := strings.LastIndex(n, "."); k >= 0 {
+				n = n[k+1:]
+			}
+			if star {
+				return "*" + n
+			}
+			return n
+		}
+		if bare(shortTypeName(v.T)) != bare(rc.Chan) {
+			continue
+		}
+		env := c.newEnv(fr, st, fr.entry)
+		env.anyDef = true
+		env.names["recvd"] = v
+		c.assume(st, Implies(ok, c.evalBool(env, rc.E)))
+		c.assumed["received values satisfy (guaranteed by the sender's step contract): "+rc.Chan+": "+rc.Text] = true
+	}
+}
 // onChanSend: step contracts (`onsend ch: expr`) of the verified function are obligations at each send on that channel.
 func (e *Engine) onChanSend(c *FnCtx, fr *Frame, st *State, ch, v Val, pos token.Pos) {
 	spec := c.specFor(fr)
